@@ -3,7 +3,7 @@ import Driver.Util
 /- `driver rankconc`: validates a projected trace against Model.RankConc.
    one event per line:
      call <a> create <p> | call <a> createw <p> <r> | call <a> setrank <p> <r> | call <a> free <p> | call <a> getnum
-     pre <a> | tas <a> <old 0|1> | spin <a> <v 0|1> | check <a> | insert <a> | move <a> | remove <a>
+     pre <a> | joined <a> (free: the target stream stopped and its thread is parked) | tas <a> <old 0|1> | spin <a> <v 0|1> | check <a> | insert <a> | move <a> | remove <a>
      clear <a> [<num> <p>:<rank> ...]      (observed list at the release; compared with the model's list)
      ret <a> ok | okrank <r> | oknum <n> | errx | errrank
    prints nothing for accepted events, `REJECT <n> <line> | ...` for the first rejected one (later lines are
@@ -46,6 +46,7 @@ def parseEv (ws : List String) : Option (Ev Ã— Nat Ã— Option (Int Ã— List (Nat Ã
   match ws with
   | "call" :: a :: rest => do let a â† a.toNat?; let op â† parseOp rest; pure (.call a op, a, none)
   | ["pre", a] => do let a â† a.toNat?; pure (.pre a, a, none)
+  | ["joined", a] => do let a â† a.toNat?; pure (.joined a, a, none)
   | ["tas", a, o] => do let a â† a.toNat?; let o â† b o; pure (.tas a o, a, none)
   | ["spin", a, v] => do let a â† a.toNat?; let v â† b v; pure (.spinLoad a v, a, none)
   | ["check", a] => do let a â† a.toNat?; pure (.check a, a, none)
@@ -66,7 +67,8 @@ def opName : Op â†’ String
 def modelList (s : St) : List (Nat Ã— Int) := (live s.g).map fun p => (p, s.g.rank p)
 
 def describe (s : St) (a : Nat) : String :=
-  s!"pc={repr (s.pc a)} op={repr (s.op a)} loc={s.loc a} res={repr (s.res a)} lock={s.lock} list={modelList s} num={s.g.num}"
+  let why := if s.pc a == .joining then " (the free has not completed its join: the target stream has not stopped)" else ""
+  s!"pc={repr (s.pc a)}{why} op={repr (s.op a)} loc={s.loc a} res={repr (s.res a)} lock={s.lock} list={modelList s} num={s.g.num}"
 
 def step (d : D) (ws : List String) : D Ã— String :=
   if d.dead then (d, "") else
